@@ -55,6 +55,27 @@ theorem terminal_stack_spec (first : Bool) (n : Nat) (shape : List Nat) (hn : 0 
       (by intro t' h'; cases h'; exact ht)]
   simp [Lemmas.Wrappers.stackOf_eq_specArr first n shape hpos]
 
+/-- **`framestack_done_window_any_terminal`**: whether or not the VecEnv below supplied a `terminal_observation`
+(`term = none`: gym3/procgen-style vectorised environments — the library only warns), a step that ends the episode
+leaves — and returns — the window of the NEW episode only: `n - 1` zero frames and its first observation; no frame of
+the finished episode survives. A supplied terminal observation is stacked onto the finished episode's window; an
+absent one stays absent (nothing is invented, `infos[i]` simply has no `terminal_observation`). -/
+theorem framestack_done_window_any_terminal (first : Bool) (n : Nat) (shape : List Nat) (hn : 0 < n)
+    (hne : shape ≠ []) (hpos : 0 < prod shape) (h : List FEv) (hh : ∀ e ∈ h, EvOK shape e) (o : Arr)
+    (ho : FrameOK shape o) (term : Option Arr) (ht : ∀ t, term = some t → FrameOK shape t) :
+    updateArr first (fsRun first (Arr.zeros (stackedShape n first shape)) h) o true term =
+      (stackOf first n shape [o], term.map fun t => stackOf first n shape (curEpisode [] h ++ [t])) := by
+  obtain ⟨hrun, hep⟩ := Lemmas.Wrappers.fsRun_spec first n shape hn hne hpos h [] (by simp) hh
+  rw [Lemmas.Wrappers.zeros_eq_specArr first n shape hne hpos, hrun,
+    Lemmas.Wrappers.updateArr_spec first n shape hn hne hpos _ o true term hep ho ht]
+  cases term <;> simp [Lemmas.Wrappers.stackOf_eq_specArr first n shape hpos]
+
+/-- the same at row level, for any window contents of the running episode -/
+theorem window_cleared_on_done_any_terminal (n c : Nat) (hn : 0 < n) (ep : List (List Int)) (obs : List Int)
+    (term : Option (List Int)) (hep : ∀ f ∈ ep, f.length = c) (ho : obs.length = c) :
+    (updateRow (paddedRow n c ep) obs true term).1 = paddedRow n c [obs] := by
+  rw [Lemmas.Wrappers.updateRow_done n c hn ep obs term hep ho]
+
 /-- An ordinary step (not done) appends the observation to the current episode and leaves `info` alone. -/
 theorem framestack_step_spec (first : Bool) (n : Nat) (shape : List Nat) (hn : 0 < n) (hne : shape ≠ [])
     (hpos : 0 < prod shape) (h : List FEv) (hh : ∀ e ∈ h, EvOK shape e) (o : Arr) (ho : FrameOK shape o)
@@ -422,5 +443,10 @@ example : ScalarBounds ⟨false, [("", ⟨[1, 1, 2], [0, 0], [255, 255], "uint8"
 example : OpIn ⟨false, [("", ⟨[1, 1, 2], [0, 0], [255, 255], "uint8"⟩)]⟩
     (.step ⟨[("", ⟨[1, 1, 2], [7, 255]⟩)], 1, true, ⟨some [("", ⟨[1, 1, 2], [3, 4]⟩)], false, none, 0⟩⟩) := by
   unfold OpIn; decide
+
+/-- `framestack_done_window_any_terminal` with NO terminal observation supplied: the window after the done step holds
+only the new frame `[5,6,7,8]` (zero padded), nothing of the old episode `[1,2,3,4]`, and no terminal is invented -/
+example : updateArr false (fsRun false (Arr.zeros (stackedShape 3 false [2, 2])) [FEv.reset ⟨[2, 2], [1, 2, 3, 4]⟩])
+    ⟨[2, 2], [5, 6, 7, 8]⟩ true none = (⟨[2, 6], [0, 0, 0, 0, 5, 6, 0, 0, 0, 0, 7, 8]⟩, none) := by decide
 
 end SB3Verif.C17
